@@ -36,6 +36,10 @@ pub struct Cfg {
     /// count (the FDT then carries FEC attributes at instance level AND, different, at file level)
     #[serde(default)]
     pub sess_like: bool,
+    /// the session's FDT instances are gzip-compressed and cut into source blocks of two 64-byte symbols (several
+    /// FDT packets in several blocks take part in the orderings)
+    #[serde(default)]
+    pub fdt_blocks: bool,
     /// 0 = one object; 1 = a second object (other bytes, 3 bytes longer), both multiplexed, full FDT;
     /// 2 = a second object sent after the first, FDT listing only the objects being transferred
     #[serde(default)]
@@ -71,8 +75,11 @@ impl Cfg {
         if self.carousel {
             o.carousel = Some(Carousel::Delay(500));
         }
-        let mut s = SessSpec::basic(if self.sess_like { OtiSpec::new(self.scheme, self.e, self.b * 2, if self.scheme == Scheme::NoCode { 0 } else { self.parity + 1 }, true) } else { OtiSpec::new(Scheme::NoCode, 1424, 64, 0, true) });
+        let mut s = SessSpec::basic(if self.fdt_blocks { OtiSpec::new(Scheme::NoCode, 64, 2, 0, true) } else if self.sess_like { OtiSpec::new(self.scheme, self.e, self.b * 2, if self.scheme == Scheme::NoCode { 0 } else { self.parity + 1 }, true) } else { OtiSpec::new(Scheme::NoCode, 1424, 64, 0, true) });
         s.interleave = self.interleave;
+        if self.fdt_blocks {
+            s.fdt_cenc = 3;
+        }
         let mut objs = vec![o];
         if self.second != 0 {
             let mut o2 = objs[0].clone();
@@ -279,7 +286,7 @@ fn run_corrupt_expect(p: &Prepared, seq: &[usize], c: &Corrupt, g: &mut G) -> Op
 }
 
 fn configs(thorough: bool) -> Vec<Cfg> {
-    let c = |scheme, e, b, parity, len, cenc, inband_fti, count, carousel, interleave| Cfg { scheme, e, b, parity, len, cenc, inband_fti, count, carousel, interleave, inband_cenc: inband_fti, md5: true, incompressible: false, sparse: false, sess_like: false, second: 0, al: 0, n: 0, stream: 0 };
+    let c = |scheme, e, b, parity, len, cenc, inband_fti, count, carousel, interleave| Cfg { scheme, e, b, parity, len, cenc, inband_fti, count, carousel, interleave, inband_cenc: inband_fti, md5: true, incompressible: false, sparse: false, sess_like: false, fdt_blocks: false, second: 0, al: 0, n: 0, stream: 0 };
     let mut v = vec![
         c(Scheme::NoCode, 4, 2, 0, 11, 0, true, 1, false, 1),
         c(Scheme::NoCode, 4, 2, 0, 11, 0, false, 1, false, 1),
@@ -427,6 +434,17 @@ fn configs(thorough: bool) -> Vec<Cfg> {
                 }
                 let mut x = c(Scheme::Raptor, e, b, parity, len, 0, inband_fti, 1, false, 1);
                 x.md5 = md5;
+                v.push(x);
+            }
+        }
+    }
+    // compressed multi-block FDT instances: whole-session orders with the FDT packets anywhere
+    for (scheme, e, b, parity, len) in [(Scheme::NoCode, 4u16, 2u16, 0u16, 11usize), (Scheme::Rs28, 4, 2, 1, 7), (Scheme::RaptorQ, 4, 2, 1, 7)] {
+        for inband_fti in [true, false] {
+            for md5 in [true, false] {
+                let mut x = c(scheme, e, b, parity, len, 0, inband_fti, 1, false, 1);
+                x.md5 = md5;
+                x.fdt_blocks = true;
                 v.push(x);
             }
         }
